@@ -39,9 +39,9 @@ impl FPGAEmulator {
             .take(self.mem.num_transducers)
             .enumerate()
             .for_each(|(i, (&tr, &p))| {
-                let tr_z = ((tr >> 32) & 0xFFFF) as i16 as i32;
-                let tr_x = ((tr >> 16) & 0xFFFF) as i16 as i32;
-                let tr_y = (tr & 0xFFFF) as i16 as i32;
+                let tr_z = ((tr >> 32) & 0xFFFF) as i16 as i64;
+                let tr_x = ((tr >> 16) & 0xFFFF) as i16 as i64;
+                let tr_y = (tr & 0xFFFF) as i16 as i64;
                 let mut intensity = 0x00;
                 let (sin, cos) = (0..num_foci).fold((0, 0), |acc, i| {
                     let f = unsafe {
@@ -49,9 +49,9 @@ impl FPGAEmulator {
                             .as_ptr() as *const STMFocus)
                             .read_unaligned()
                     };
-                    let x = f.x();
-                    let y = f.y();
-                    let z = f.z();
+                    let x = f.x() as i64;
+                    let y = f.y() as i64;
+                    let z = f.z() as i64;
                     let intensity_or_offset = f.intensity();
                     let offset = if i == 0 {
                         intensity = intensity_or_offset;
@@ -62,8 +62,8 @@ impl FPGAEmulator {
 
                     let d2 =
                         (x - tr_x) * (x - tr_x) + (y - tr_y) * (y - tr_y) + (z - tr_z) * (z - tr_z);
-                    let dist = d2.isqrt() as u32;
-                    let q = ((dist << 14) / sound_speed as u32) as usize;
+                    let dist = d2.isqrt() as u64;
+                    let q = ((dist << 14) / sound_speed as u64) as usize;
                     let q = q + offset as usize;
                     (
                         acc.0 + self.mem.sin_table[q % 256] as u16,
